@@ -169,6 +169,22 @@ def run_blob(case):
         return Outcome(False, nontriv, cls, "%s (axis %d, it=%d, n=%d): particle at along=%.4f across=%.4f moved by %.6f, the charge around it by %.6f (row offsets %s)" %
                        (case["kind"], axis, it, n, float(along), float(across), dpart, dcent, [float(offs[q]) for q, _ in rows]),
                        sig=("c15:blob:lastrow" if len(rows) == 1 else "c15:blob:%s:interior" % case["kind"]), metrics=met)
+    # the whole row moves by one displacement: a particle elsewhere on the same row - in particular exactly on the first
+    # or last cell of the kicked coordinate, where an earlier step may have clamped it - must move by the same amount as
+    # the particle in the interior, as long as that keeps it on the grid (round-5 seed C15e: a particle sitting exactly on
+    # n-1 was never kicked again)
+    for a2 in case.get("along_extra", []):
+        along2 = np.float32(a2 if a2 >= 0 else (n - 1 + a2))
+        target = float(along2) + dpart
+        if not (1.001 <= target <= n - 1.001):
+            continue
+        pos2 = np.array([[along2, across]], np.float32) if axis == 0 else np.array([[across, along2]], np.float32)
+        new2 = s.map_apply_to(m, pos2)[0]
+        got = float(new2[0] if axis == 0 else new2[1])
+        cls.append("edge_along")
+        if abs(got - target) > 2e-5 * (1 + omax) + 1e-6 * n:
+            return Outcome(False, nontriv, cls, "%s (axis %d, n=%d): a particle at along=%.6f across=%.4f moved to %.6f, the particle at along=%.4f on the same row moved by %.6f (expected %.6f)" %
+                           (case["kind"], axis, n, float(along2), float(across), got, float(along), dpart, target), sig="c15:blob:edge_along", metrics=met)
     return Outcome(True, nontriv, cls, metrics=met)
 
 
@@ -221,6 +237,9 @@ def blob_cases(draw):
         c["across"] = gen.f32(draw(st.sampled_from([0.0, float(n - 1)])) + draw(st.floats(-1e-3, 1e-3)))
         c["across"] = min(max(c["across"], 0.0), float(n - 1))
     c["along_frac"] = draw(st.floats(0, 1))
+    # further particles on the same row: non-negative = coordinate, negative = distance from the last cell
+    c["along_extra"] = draw(st.lists(st.sampled_from([0.0, 1.0, 1.5, -0.0001, -1.0, -1.5, 2.0, -2.0, 0.5]), max_size=3, unique=True)) + \
+        ([float(n - 1)] if draw(st.booleans()) else [])
     c["kernel"] = [draw(st.floats(0.1, 1.0)) for _ in range(draw(st.integers(1, 3)))]
     return c
 
